@@ -324,7 +324,20 @@ func (pm *ProtocolManager) rcvBlockLoop() {
 func (pm *ProtocolManager) insertBlock(b *types.Block) error {
 	// pop the confirms which arrived before block
 	pm.mergeConfirmsFromCache(b)
-	return pm.chain.InsertBlock(b)
+	err := pm.chain.InsertBlock(b)
+	// A confirm which arrived while the block was inserted found no block in the chain yet and went into the cache,
+	// after the cache was emptied above. Nobody would look for it there any more
+	if err == nil {
+		late := pm.confirmsCache.Pop(b.Height(), b.Hash())
+		if len(late) > 0 {
+			sigs := make([]types.SignData, 0, len(late))
+			for _, confirm := range late {
+				sigs = append(sigs, confirm.SignInfo)
+			}
+			go pm.chain.InsertConfirms(b.Height(), b.Hash(), sigs)
+		}
+	}
+	return err
 }
 
 // stableBlockLoop block has been stable
